@@ -170,6 +170,15 @@ def special_expr(rng):
         ["bin", "**", C(10), C(400)], ["bin", "~", F(C("nan"), "float"), C("x")],
         ["list", [F(C("inf"), "float"), C(1)]], ["cmp", F(C("inf"), "float"), [[">", C(1)]]],
         F(["bin", "*", C("9"), C(50)], "int"), ["un", "-", F(C("inf"), "float")],
+        # container constants whose ELEMENTS have no literal form, inside expressions that
+        # cannot be folded completely (runtime key / operand)
+        ["item", ["dict", [[C("a"), F(C("inf"), "float")], [C("b"), C(2)]]], ["cond", C("a"), N_("b1"), C("b")]],
+        ["item", ["dict", [[C("a"), ["bin", "*", C(1e308), C(10)]], [C("b"), F(C("nan"), "float")]]], N_("s1")],
+        ["bin", "~", ["dict", [[C("a"), ["item", ["list", [C(1)]], C(5)]]]], N_("s1")],
+        ["bin", "~", ["list", [["item", ["list", [C(1)]], C(5)], F(C("-inf"), "float")]], N_("i1")],
+        ["test", ["dict", [[C("a"), F(C("nan"), "float")]]], "eq", [N_("d1")], False],
+        ["filter", ["dict", [[C("k"), ["attr", C("x"), "nope"]]]], "default", [N_("s1")], []],
+        ["item", ["tuple", [F(C("inf"), "float"), C(1)]], ["cond", C(0), N_("b1"), C(1)]],
         # constant-bounds slices of values that cannot be sliced (and of ones that can)
         ["slice", N_("i1"), C(1), C(3), None], ["slice", C(5), C(0), C(1), None],
         ["slice", N_("n1"), None, C(2), None], ["slice", N_("d1"), None, None, C(2)],
